@@ -213,7 +213,16 @@ def specVerdict (st : DState) (real : List String) : Array SpecIt × Option Stri
         | [] =>
           match badPat with
           | [] => some "S ok"
-          | ((p, _), (_, r)) :: _ =>
+          | ((p, w), (_, r)) :: _ =>
+            -- DESIGN F2: with a token type shared by several patterns of the mode the crate orders
+            -- ties by the first occurrence of the token type; a failure that follows exactly that
+            -- rule is the recorded finding, any other deviation is reported as usual
+            let f2 := !distinctTypes ps &&
+              (bs.zip parsed).all fun ((_, w'), (_, r')) => patFindOK cmR ps w' r' || sharedTypeRule cmR ps w' r'
+            let _ := w
+            if f2 then
+              some s!"S FAIL findall mode {m} at byte {p}: real result {r}: tie resolved by the first occurrence of a shared token type instead of the first listed pattern (finding F2)"
+            else
             some s!"S FAIL findall mode {m} at byte {p}: real result {r} is not the longest match of the first listed pattern (pattern-level rule)"
         | ((p, _), (_, r)) :: _ =>
           some s!"S FAIL findall mode {m} at byte {p}: real result {r} is not the best candidate of the trailing-context rule")
